@@ -69,6 +69,8 @@ def check(scratch, a, t0):
                 npaths += n
                 pf += fnd
         pf += widening(fk, profile, qs, timeout_ms)
+        if not release:
+            pf += literal_forms(fk, profile, qs, timeout_ms)
         info["paths"][profile] = npaths
         log("  [%s] %d folder/run-time path pairs, %d obligations so far, %d candidate findings" % (profile, npaths, qs.obligations, len(pf)))
         # native confirmation: real folder (compiler crate) and real run time (bytecode crate) on the witness
@@ -244,6 +246,89 @@ def widening(fk, profile, qs, timeout_ms):
     return out
 
 
+def literal_forms(fk, profile, qs, timeout_ms):
+    """`!b`, `get <literal>`, `get nil`, `(nil) or <literal>`, `(<literal>) or <literal>` folded by impl CompileTimeEvaluate for Expr:
+    !b is the negation; get/or on a present literal yield that literal (kind and value); `(nil) or y` yields y; `get nil` is rejected."""
+    from sym import Adt, Opaque, Ref, Sc
+    out = []
+
+    def run(root, cells):
+        cells[("root",)] = root
+        return fk.ex.run(fk.fn["expr"], [Ref(("root",))], cells=cells)
+
+    def outcome(o):
+        if o.kind == "panic":
+            return ("panic", None, None)
+        v = o.value
+        if v.variant == "Err":
+            return ("err", None, None)
+        ce = v.fields[0]
+        if ce.variant == "Impossible":
+            return ("defer", None, None)
+        val = ce.fields[0]
+        if val.variant == "Boolean":
+            return ("ok", "Bool", val.fields[0].e)
+        if val.variant == "Number":
+            n = val.fields[0]
+            kind = F.KIND_OF_NUM[n.variant]
+            okp, e = F.literal_value(kind, n.fields[0])
+            return ("ok", kind, (okp, e))
+        return ("other", None, None)
+
+    def add(form, arm, vals, kinds, detail, native):
+        f = Q.Finding("C06", form, arm, "literal-form-wrong", profile, [(kinds[i], vals[i]) for i in range(len(kinds))], detail)
+        f.native_op = None
+        f.lf = native
+        out.append(f)
+
+    # !b
+    b = Sc("bool", z3.Bool("a"))
+    cells = {}
+    outs = run(Adt("Expr", "UnaryNot", [F.boxed(cells, ("h", 0), Adt("Expr", "Value", [Adt("Value", "Boolean", [b])]))]), cells)
+    ps = K.Summary("not", ("Bool",), [b], [], "expr", 0)
+    for i, o in enumerate(outs):
+        pc = z3.And(*o.pc) if o.pc else z3.BoolVal(True)
+        k, kind, e = outcome(o)
+        bad = pc if not (k == "ok" and kind == "Bool") else z3.And(pc, e != z3.Not(b.e))
+        r, vals = Q.decide(bad, ps, qs, timeout_ms, V.seed(), "fold:not/%s:path%d" % (profile, i))
+        if r == "sat":
+            add("not", "Bool", vals, ["Bool"], "`!<bool literal>` is not folded to the negation", "lf:not:%d" % vals[0])
+    for kind in K.KINDS:
+        a = K.sym_payload(kind, "a")
+        # get <literal>  and  (<literal>) or <float literal>  and  (nil) or <literal>: all must yield the literal `a`
+        for form in ("get", "orlit", "ornil"):
+            cells = {}
+            if form == "get":
+                root = Adt("Expr", "UnaryUnwrap", [F.literal_leaf(cells, ("h", 0), kind, a), Opaque("span", "x")])
+            elif form == "orlit":
+                root = Adt("Expr", "NilEval", [F.literal_leaf(cells, ("h", 0), kind, a), Adt("Value", "Number", [F.number("Byte", K.sym_payload("Byte", "b"))])])
+            else:
+                root = Adt("Expr", "NilEval", [F.boxed(cells, ("h", 0), Adt("Expr", "Nil", [])), Adt("Value", "Number", [F.number(kind, a)])])
+            ps = K.Summary(form, (kind,), [a], [], "expr", 0)
+            for i, o in enumerate(run(root, cells)):
+                pc = z3.And(*o.pc) if o.pc else z3.BoolVal(True)
+                k, rk, e = outcome(o)
+                if k == "ok" and rk == kind:
+                    okp, val = e
+                    bad = z3.And(pc, z3.Not(z3.And(okp, val == a.e)))
+                else:
+                    bad = pc
+                r, vals = Q.decide(bad, ps, qs, timeout_ms, V.seed(), "fold:%s[%s]/%s:path%d" % (form, kind, profile, i))
+                if r == "sat":
+                    add(form, kind, vals, [kind], "`%s` on a present %s literal does not yield that literal" % ({"get": "get x", "orlit": "(x) or y", "ornil": "(nil) or x"}[form], kind), "lf:" + form)
+    # get nil: must be rejected at compile time (the run time would stop with an error)
+    cells = {}
+    outs = run(Adt("Expr", "UnaryUnwrap", [F.boxed(cells, ("h", 0), Adt("Expr", "Nil", [])), Opaque("span", "x")]), cells)
+    ps = K.Summary("getnil", (), [], [], "expr", 0)
+    for i, o in enumerate(outs):
+        pc = z3.And(*o.pc) if o.pc else z3.BoolVal(True)
+        k, _, _ = outcome(o)
+        r, vals = Q.decide(pc if k in ("ok", "panic", "other") else z3.BoolVal(False), ps, qs, timeout_ms, V.seed(), "fold:getnil/%s:path%d" % (profile, i))
+        if r == "sat":
+            add("getnil", "Nil", [], [], "`get nil` is folded to a value instead of being rejected", "lf:getnil")
+    return out
+
+
 def int_eq(kind, val, v128):
     bits = sym.INT_TYPES[K.KTY[kind]][0]
     if bits == 128:
@@ -254,8 +339,30 @@ def int_eq(kind, val, v128):
 def confirm(findings, nat, natc, release):
     """replay on the real code: fold natively (compiler crate) and evaluate natively (bytecode crate)"""
     todo = [f for f in findings if f.native_op]
+    lfs = [f for f in findings if getattr(f, "lf", None)]
+    if lfs:
+        vec = os.path.join(natc.s.dir, "fold_vectors_lf.txt")
+        with open(vec, "w") as fh:
+            for i, f in enumerate(lfs):
+                w = f.witness + ([("Byte", 1)] if f.lf == "lf:orlit" else [])
+                fh.write("%d %s %s\n" % (i, f.lf, " ".join("%s %x" % (k, v) for k, v in w if k != "Bool")))
+        res = natc.run(env_extra={"VERIF_FOLD_VECTORS": vec}, release=release)
+        got = {t[1]: t[2:] for t in res if t[0] == "fold"}
+        for i, f in enumerate(lfs):
+            f.native = got.get(str(i))
+            # the REAL folder must deviate from the meaning of the form on this witness
+            n = f.native
+            if n is None:
+                f.confirmed = False
+            elif f.lf.startswith("lf:not"):
+                f.confirmed = n != ["OK", "Bool", "%x" % (1 - f.witness[0][1])]
+            elif f.lf == "lf:getnil":
+                f.confirmed = n != ["ERR"]
+            else:
+                k, v = f.witness[0]
+                f.confirmed = n != ["OK", k, "nan" if (k == "Float" and (v & 0x7FF0000000000000) == 0x7FF0000000000000 and v & 0xFFFFFFFFFFFFF) else "%x" % v]
     for f in findings:
-        if not f.native_op:
+        if not f.native_op and not getattr(f, "lf", None):
             f.native = ["(widening: confirmed by the folder harness below)"]
     if not todo:
         return
@@ -298,7 +405,7 @@ def report(a, findings, qs, info, t0):
     known = V.known_index("C06")
     new, listed, bad = [], [], []
     for f in findings:
-        if f.confirmed is False or (f.confirmed is None and f.native_op):
+        if f.confirmed is False or (f.confirmed is None and (f.native_op or getattr(f, "lf", None))):
             bad.append(f)
         elif f.key() in known:
             listed.append(f)
